@@ -1,0 +1,13 @@
+//go:build verif
+
+// Ghost code for the verification machinery in /verif: lemma procedures. A lemma is an
+// ordinary function whose contract (in zz_verif_contracts.go) is the lemma statement and
+// whose loop carries the induction; it is verified like any other function and may then be
+// cited by other contracts ("use"). Nothing here is compiled without the build tag "verif".
+package statedb
+
+// lemmaCntMono: cnt(s, .) is monotone and grows by at most one per element.
+func lemmaCntMono(s []byte, j, i int) {
+	for x := j; x < i; x++ {
+	}
+}
